@@ -160,7 +160,12 @@ func (qs *QueryStore) OnQueryChange(cb func(store.QueryChange)) {
 
 // Flush waits for the indexing queue to be cleared.
 func (qs *QueryStore) Flush() {
-	qs.tq.Flush()
+	// TaskQueue.Flush only waits for the queue to be empty, which it is as
+	// soon as the last task is picked up. Tasks are handled in order, so wait
+	// for a task of our own to be done, to know that all previous tasks are too.
+	done := make(chan struct{})
+	qs.tq.Do(func() { close(done) })
+	<-done
 }
 
 func (qs *QueryStore) handleChange(id string, before, after interface{}) {
